@@ -32,8 +32,6 @@ Definition EN (wl tick gt : N) (head : option (N * N)) (parents : list pref) (ki
   {| e_wl := wl; e_tick := tick; e_gtick := gt; e_head := head; e_parents := parents; e_kind := kind; e_root := root;
      e_pdig := pdig; e_commit := commit; e_patch := p; e_receipt := rc; e_outputs := []; e_atoms := atoms |}.
 
-(* byte strings are reported as one number (base 256, leading 1) *)
-Definition pack (l : bytes) : N := fold_left (fun a b => a * 256 + b) l 1.
 
 Definition cbody_of (e : entry) (p : patch) : cbody :=
   {| cb_parents := parent_ids e; cb_root := e_root e; cb_pdig := e_pdig e; cb_policy := p_policy p |}.
@@ -54,19 +52,25 @@ Definition preimages (e : entry) : list (N * list N) :=
                match e_receipt e with Some r => out_bytes (receipt_preimage (r_entries r)) | None => (0, []) end]
   | None => []
   end.
-(* (packed preimage, recorded digest) rows: the hash function the model is run with is the table of the REAL
-   entries' preimages (each row is checked against blake3 by the plug-in first); any other preimage maps to 2^256,
-   a value no 32-byte field can hold, which is how blake3 behaves unless it collides *)
-Definition rows_of (e : entry) : list (N * N) :=
+(* (preimage, recorded digest) rows: the hash function the model is run with is the table of the REAL entries'
+   preimages (each row is checked against blake3 by the plug-in first); any other preimage maps to 2^256, a value no
+   32-byte field can hold, which is how blake3 behaves unless it collides *)
+Definition rows_of (e : entry) : list (bytes * N) :=
   match e_patch e with
-  | Some p => [(pack (patch_preimage (replay_body p)), p_digest p); (pack (commit_preimage (cbody_of e p)), e_commit e)]
-              ++ match e_receipt e with Some r => [(pack (receipt_preimage (r_entries r)), p_decision p)] | None => [] end
+  | Some p => [(patch_preimage (replay_body p), p_digest p); (commit_preimage (cbody_of e p), e_commit e)]
+              ++ match e_receipt e with Some r => [(receipt_preimage (r_entries r), p_decision p)] | None => [] end
   | None => []
   end.
-Fixpoint tab_find (k : N) (tab : list (N * N)) : option N :=
-  match tab with [] => None | (a, d) :: r => if a =? k then Some d else tab_find k r end.
-Definition Htab (tab : list (N * N)) (x : bytes) : N :=
-  match tab_find (pack x) tab with Some d => d | None => two256 end.
+Fixpoint bytes_eqb (a b : bytes) : bool :=
+  match a, b with
+  | [], [] => true
+  | x :: r, y :: s => if x =? y then bytes_eqb r s else false
+  | _, _ => false
+  end.
+Fixpoint tab_find (k : bytes) (tab : list (bytes * N)) : option N :=
+  match tab with [] => None | (a, d) :: r => if bytes_eqb a k then Some d else tab_find k r end.
+Definition Htab (tab : list (bytes * N)) (x : bytes) : N :=
+  match tab_find x tab with Some d => d | None => two256 end.
 
 (* state = (graph id, number of patches applied); apply and root are the tables measured on the implementation *)
 Definition MSt := (N * N)%type.
@@ -81,7 +85,7 @@ Definition enc_rerr (e : rerr) : list N :=
   | EHistoryUnavailable t => [1; t] | EMissingPatch t => [2; t] | EApply t => [3; t] | EStateRoot t => [4; t]
   | ECommitHash t => [5; t] | EPatchDigest t => [6; t] | ETickOverflow t => [7; t] | EReceiptTx t => [8; t]
   | EReceiptDigest t => [9; t] | ECheckpointRoot t => [10; t] | EBaseWarp => [11; 0] | EBaseBoundary => [12; 0]
-  | EEntryWorldline t => [13; t] | EEntryTick t => [14; t] | EParentLink t => [15; t]
+  | EEntryWorldline t => [13; t] | EEntryTick t => [14; t] | EParentLink t => [15; t] | ECheckpointMeta t => [16; t]
   end.
 Definition enc_res (r : rerr + rstate MSt) : list N :=
   match r with
@@ -98,7 +102,7 @@ Definition enc_herr (e : herr) : N :=
 
 (* one altered history: seek (fresh cursor, no checkpoint) to each target, and the transport path
    (append every entry into a fresh store holding the other worldlines, then replay to the end) *)
-Definition eval_alt (lc : bool) (tab : list (N * N)) (wl u0 bnd : N) (others : store) (hist : list entry)
+Definition eval_alt (lc : bool) (tab : list (bytes * N)) (wl u0 bnd : N) (others : store) (hist : list entry)
   (chain : list (option N)) (roots : list (N * N)) (targets : list N) : list (list N) * list N :=
   let H := Htab tab in
   let ap := mk_apply chain in
@@ -372,7 +376,7 @@ def targets_of(m, n_orig):
 def correspondence(r, cases, by_case, tier):
     import concurrent.futures
     jobs, meta_by_case = [], {}
-    model_budget = 150 if tier == "quick" else 600     # alterations per case evaluated on the model
+    model_budget = 60 if tier == "quick" else 400     # alterations per case evaluated on the model
     layout_checked = 0
     for i, c in enumerate(cases):
         lines = by_case.get(i, [])
@@ -422,7 +426,7 @@ def correspondence(r, cases, by_case, tier):
         defs += f"Definition u0 : N := {u0n}.\nDefinition bnd : N := {bndn}.\n"
         defs += "".join(f"Definition wl{w} : N := {wln[w]}.\n" for w in ws)
         defs += "".join(f"Definition b{w}_{t} : entry := {x}.\n" for w in ws for t, x in enumerate(base[w]))
-        defs += f"Definition tab : list (N * N) := Eval vm_compute in (flat_map rows_of [{allnames}]).\n"
+        defs += f"Definition tab : list (bytes * N) := Eval vm_compute in (flat_map rows_of [{allnames}]).\n"
         jobs.append((i, ws, ents, defs, terms, meta))
     shards = 2 if tier == "quick" else 4
     def one(job):
@@ -515,7 +519,7 @@ def run(tier, seed, replay=None):
         cases = [d["replay"]["case"]] if "case" in d.get("replay", {}) else []
     else:
         cases = vf.load_corpus(PROP)
-        n = 10 if tier == "quick" else 60
+        n = 8 if tier == "quick" else 60
         cases += [gen_case(r.rng, tier, i) for i in range(n)]
     cases = [f"id={i} {c}" + (" tier=thorough" if tier == "thorough" else "") for i, c in enumerate(cases)]
     try:
